@@ -130,6 +130,17 @@ CLAIMED = {
              "recipe fill/dilute steps) are checked against the actual deltas by an oracle on the implementation (testing; partial).",
              technique="Coq proof over Q (case analysis of the rescaling cascade, field); enumerated correspondence over magnitudes x prefixes x kinds; instruction-text read-back oracle",
              design="5 C19"),
+ 'C04': dict(text="Theorems over an object-level model (Heap.v: containers, well arrays, plates and slice objects as cells of a heap; deepcopy = "
+             "fresh cells, copy(slice) = one fresh cell, attribute/item assignment = store): for every operation of the DSL (constructors, "
+             "plate[...] , all four transfer forms incl. same-plate, remove, fill_to, dilute, create_solution(_from) on containers, Recipe.uses), "
+             "every heap and every argument, the call -- returning or raising at any point, e.g. at a later well -- leaves every cell that "
+             "existed as it was, so everything observable through any older object (name, contents, volume, capacity, instruction revision, "
+             "every well, the plate a slice points at) is unchanged; results are new cells; by induction nothing observable after a prefix of "
+             "a history is changed by any continuation. Tie: correspondence of decisions, returned values AND the identity structure of "
+             "everything reachable from every variable. Recipe steps/bake (also a bake failing at step k, and later operations on baked "
+             "results) are decided by the fingerprint oracle on the implementation only (partial).",
+             technique="Coq proof (Hoare-style frame rule over an append-only heap, induction over well loops and histories); differential correspondence incl. object-identity graph; fingerprint oracle around every call",
+             design="5 C04"),
 }
 checks = []
 for p in props:
